@@ -23,7 +23,7 @@ SIG = 16
 def _authentic(c):
     n = 24 + STUB + 8 + SIG
     hdr = _pdu.PDUHeader(5, 0, _pdu.PacketType.RESPONSE, _pdu.PacketFlags(3), _pdu.DataRep(), n, SIG, 1).pack() + b"\x10\x00\x00\x00\x00\x00\x00\x00"
-    return dict(header=hdr, body=c.bytes("sealed", STUB), trailer=bytes([10, 6, 4, 0, 0, 0, 0, 0]), sig=c.bytes("sig", SIG), plain=c.bytes("plain", STUB))
+    return dict(header=hdr, body=c.bytes("sealed", STUB), trailer=bytes([9, 6, 4, 0, 0, 0, 0, 0]), sig=c.bytes("sig", SIG), plain=c.bytes("plain", STUB))
 
 
 def _client(c, auth, sign_header):
